@@ -67,6 +67,12 @@ theorem hasTTL_step (cfg : Nat → LockCfg) (st : St) (op : Op) (h : HasTTL st) 
     split at he
     · simp at he; exact ⟨_, by rw [← he]⟩
     · exact h k e he
+  | acquireS j secs =>
+    intro k e he
+    simp only [step, acquireWith_ent] at he
+    split at he
+    · simp at he; exact ⟨_, by rw [← he]⟩
+    · exact h k e he
   | release j =>
     intro k e he
     simp only [step, release_ent] at he
@@ -74,32 +80,36 @@ theorem hasTTL_step (cfg : Nat → LockCfg) (st : St) (op : Op) (h : HasTTL st) 
     · simp at he
     · exact h k e he
 
+theorem acquireWith_refines (cfg : Nat → LockCfg) (st : St) (j secs : Nat) (h : HasTTL st) :
+    (if (abs st).freeFor (cfg j).key (cfg j).id then ((abs st).grant (cfg j).key (cfg j).id secs, true)
+     else (abs st, false)) = (abs (acquireWith cfg st j secs).1, (acquireWith cfg st j secs).2) := by
+  by_cases hf : freeFor st.store (cfg j).key (cfg j).id
+  · have h1 := (abs_freeFor st h (cfg j).key (cfg j).id).2 hf
+    have h2 := (acquireWith_result cfg st j secs).2 hf
+    rw [if_pos h1, h2]
+    congr 1
+    apply ASt.ext'
+    · simp [ASt.grant, abs, acquireWith_now]
+    · intro k
+      simp only [ASt.grant, abs, acquireWith_ent, updL]
+      by_cases hk : k = (cfg j).key
+      · simp [hk, hf]; rfl
+      · simp [hk]
+    · intro i; rfl
+  · have h1 : ¬ (abs st).freeFor (cfg j).key (cfg j).id = true := fun c => hf ((abs_freeFor st h _ _).1 c)
+    have h2 : (acquireWith cfg st j secs).2 = false := by
+      cases hc : (acquireWith cfg st j secs).2 with
+      | false => rfl
+      | true => exact absurd ((acquireWith_result _ _ _ _).1 hc) hf
+    rw [if_neg h1, h2, acquireWith_unchanged cfg st j _ hf]
+
 theorem step_refines (cfg : Nat → LockCfg) (st : St) (op : Op) (h : HasTTL st) :
     Spec.step cfg (abs st) op = (abs (step cfg st op).1, (step cfg st op).2) := by
   cases op with
   | ft ms => simp [Spec.step, step, abs, Store.advance]
   | setExpire j s => simp [Spec.step, step, abs]
-  | acquire j =>
-    simp only [Spec.step, step, acquire]
-    by_cases hf : freeFor st.store (cfg j).key (cfg j).id
-    · have h1 := (abs_freeFor st h (cfg j).key (cfg j).id).2 hf
-      have h2 := (acquireWith_result cfg st j (st.secs j)).2 hf
-      rw [if_pos h1, h2]
-      congr 1
-      apply ASt.ext'
-      · simp [ASt.grant, abs, acquireWith_now]
-      · intro k
-        simp only [ASt.grant, abs, acquireWith_ent, updL]
-        by_cases hk : k = (cfg j).key
-        · simp [hk, hf]; rfl
-        · simp [hk]
-      · intro i; rfl
-    · have h1 : ¬ (abs st).freeFor (cfg j).key (cfg j).id = true := fun c => hf ((abs_freeFor st h _ _).1 c)
-      have h2 : (acquireWith cfg st j (st.secs j)).2 = false := by
-        cases hc : (acquireWith cfg st j (st.secs j)).2 with
-        | false => rfl
-        | true => exact absurd ((acquireWith_result _ _ _ _).1 hc) hf
-      rw [if_neg h1, h2, acquireWith_unchanged cfg st j _ hf]
+  | acquire j => exact acquireWith_refines cfg st j (st.secs j) h
+  | acquireS j secs => exact acquireWith_refines cfg st j secs h
   | release j =>
     simp only [Spec.step, step]
     by_cases hf : holds cfg st j
